@@ -124,7 +124,13 @@ func Decide(spec DecideSpec, pos func(token.Pos) string) DecideResult {
 		want := spec.Ref(val)
 		res.Rows++
 		row := Row{val.String(), got, want}
-		if got != want {
+		match := false
+		for _, alt := range strings.Split(want, " || ") {
+			if got == alt {
+				match = true
+			}
+		}
+		if !match {
 			res.Mismatches = append(res.Mismatches, row)
 		} else if len(res.Sample) < 4 {
 			res.Sample = append(res.Sample, row)
